@@ -140,8 +140,8 @@ def overlay_json():
         m = re.match(r"export_([a-z0-9]+(?:__[a-z0-9]+)*)\.go$", fn)
         if m:  # export_<pkg path with __>.go → internal/<pkg>/zz_verif_export.go
             rep[os.path.join(REPO, "internal", *m.group(1).split("__"), "zz_verif_export.go")] = src
-        elif fn == "export_main.go":
-            continue
+        elif fn.startswith("cmdmain_"):  # overlay into package main of cmd/decipher (verif build only)
+            rep[os.path.join(REPO, "cmd", "decipher", "zz_verif_" + fn[len("cmdmain_"):])] = src
         else:
             rep[os.path.join(REPO, "cmd", "verifharness", fn)] = src
     p = os.path.join(BUILD, "overlay.json")
@@ -157,7 +157,11 @@ def build_harness():
     if rc != 0:
         return False, out
     rc, out2 = sh(["go", "build", "-o", os.path.join(BUILD, "decipher"), "./cmd/decipher"], cwd=REPO, env=GOENV)
-    return rc == 0, out + out2
+    if rc != 0:
+        return False, out + out2
+    rc, out3 = sh(["go", "build", "-tags", "verif", "-overlay", ov, "-o", os.path.join(BUILD, "decipher_verif"),
+                   "./cmd/decipher"], cwd=REPO, env=GOENV)
+    return rc == 0, out + out2 + out3
 
 
 def load_known():
@@ -357,7 +361,7 @@ def main(prop, tier, seed, replay):
         # shrink = smallest failing case per clause
         by_clause = {}
         for f in new_fails:
-            cl = re.sub(r"[0-9a-f]{6,}", "…", f[3])[:80]
+            cl = f[3].split(":")[0][:80]
             if cl not in by_clause or len(f[0]) < len(by_clause[cl][0]):
                 by_clause[cl] = f
         for cl, f in sorted(by_clause.items()):
